@@ -163,3 +163,7 @@ def run(idx: ProgramIndex, rep: Report, tier: str):
     rep.rule("C15-5", "the enumerators feeding the objective are total: every registered prior / added-loss term is yielded, with (module, prior, closure) of the same registration at the positions the objective unpacks")
     from .common_enum import enumeration_obligations
     enumeration_obligations(idx, rep, "C15-5", [fi], floor=9)
+    rep.rule("C15-6", "the natural-gradient machinery (natural / tril-natural variational distributions) addresses matrix axes from the right: one NGD step reaches the optimum for batched q(u) as well")
+    from .c19 import axis_addressing
+    ng = [c for c in idx.package_classes() if c.module.name in (idx.package + ".variational.natural_variational_distribution", idx.package + ".variational.tril_natural_variational_distribution")]
+    axis_addressing(idx, rep, ng, rule="C15-6", floor=6)
